@@ -240,7 +240,7 @@ int cp_rabin_dec(uint8_t *out, size_t *out_len, const uint8_t *in,
 					size--;
 					bn_rsh(t, m, 8 * size);
 					pad = (uint8_t)t->dp[0];
-				} while (pad == 0);
+				} while (pad == 0 && size > 0);
 
 				if (pad != RABIN_PAD) {
 					result = RLC_ERR;
